@@ -70,6 +70,7 @@ def imports_of(mod):
         s = strip_comments(fh.read())
     imps = re.findall(r"^((?:From|Require)\b.*?\.)\s*$", s, re.M | re.S)
     opens = re.findall(r"^((?:Local )?Open Scope \w+\.)", s, re.M)
+    opens += re.findall(r"^(Local Notation \w+ := [\w.]+\.)", s, re.M)
     return imps, opens
 
 
